@@ -90,7 +90,7 @@ class Run:
             self.harness = out
         return out
 
-    def hrun(self, args, timeout=1800, binary=None, stdout=None, env=None):
+    def hrun(self, args, timeout=10800, binary=None, stdout=None, env=None):
         """Run the harness; returns CompletedProcess. A crash/hang is reported to the caller."""
         e = dict(os.environ)
         e["FLAMEGO_ENV"] = "development"
@@ -104,7 +104,7 @@ class Run:
             return r
 
     # ------------------------------------------------------------------ TLC
-    def tlc(self, module, cfg, name=None, workers=16, simulate=None, depth=None, timeout=3600,
+    def tlc(self, module, cfg, name=None, workers=16, simulate=None, depth=None, timeout=14400,
             heap="12g", want_cases=False, coverage=False, expect_violation=None, extra=()):
         """Run TLC on spec/<module>.tla with the given cfg text.
         Returns dict(generated, distinct, cases_file, out_file, violated, ok)."""
@@ -209,7 +209,7 @@ class Run:
         return r
 
     # ------------------------------------------------------------------ trace validation
-    def validate_file(self, tmodule, cfg_tmpl, trace, name, heap="3g", timeout=1800):
+    def validate_file(self, tmodule, cfg_tmpl, trace, name, heap="3g", timeout=10800):
         """Validate one ndjson trace file. Returns list of (line, verdict)."""
         cfg = cfg_tmpl.replace("@TRACE@", trace).replace("@DEV@", tla_set(self.open_devs))
         r = self.tlc(tmodule, cfg, name=name, workers=1, heap=heap, timeout=timeout,
@@ -249,7 +249,7 @@ class Run:
 
     # ------------------------------------------------------------------ family driver
     def conformance(self, label, hmodule, cases_file, tmodule, cfg_tmpl, replay_args=(), chunk_events=20000,
-                    sample_n=2, batch_timeout=1800, env=None):
+                    sample_n=2, batch_timeout=14400, env=None):
         """cases -> real trace -> TLC validation -> verdicts. Returns number of cases."""
         trace = os.path.join(self.work, label + ".trace.ndjson")
         self._cur = dict(hmodule=hmodule, tmodule=tmodule, cfg_tmpl=cfg_tmpl, replay_args=list(replay_args), env=env)
@@ -349,7 +349,7 @@ class Run:
         cf_ = os.path.join(d, "case.jsonl")
         open(cf_, "w").write(json.dumps(inp) + "\n")
         tr = os.path.join(d, "trace.ndjson")
-        p = self.hrun([hmodule, "replay", cf_, tr] + list(replay_args), timeout=120, env=env)
+        p = self.hrun([hmodule, "replay", cf_, tr] + list(replay_args), timeout=900, env=env)
         if p.returncode != 0:
             return True, dict(kind="harness-died", rc=p.returncode, stderr=p.stderr[-3000:])
         fl = self.validate_file(tmodule, cfg_tmpl, tr, "%s_repro%d" % (tmodule, self.n_tlc))
